@@ -348,6 +348,40 @@ func (g InstGen) Mutants(s *Schema, root any) []Mutant {
 				walk(sub, v, path, depth+1)
 			}
 		}
+		// an object that carries the members of TWO variants of a sum (matches both: invalid for oneOf,
+		// valid for anyOf; the reference validator decides)
+		if obj, isObj := v.(map[string]any); isObj && len(s.OneOf)+len(s.AnyOf) > 1 {
+			n := 0
+			for _, sub := range append(append([]*Schema{}, s.OneOf...), s.AnyOf...) {
+				if ok, _ := vd.Valid(sub, v); ok || n >= 2 {
+					continue
+				}
+				rs := g.C.Resolve(sub)
+				if rs == nil || rs.Type != "object" {
+					continue
+				}
+				other := rapid.Custom(func(t *rapid.T) any { return g.Gen(t, rs, 2) })
+				for seed := 0; seed < 8; seed++ {
+					om, isMap := other.Example(seed).(map[string]any)
+					if !isMap {
+						continue
+					}
+					if ok, _ := vd.Valid(rs, om); !ok {
+						continue
+					}
+					merged := map[string]any{}
+					for k, e := range om {
+						merged[k] = e
+					}
+					for k, e := range obj {
+						merged[k] = e
+					}
+					emit("sum-merge-variants", path, merged)
+					n++
+					break
+				}
+			}
+		}
 		switch x := v.(type) {
 		case json.Number:
 			if s.Min != "" {
